@@ -107,8 +107,7 @@ func init() {
 					}
 				})
 				R.decide("C08.e", FuncKey(fn)+":elements", "each decoded element is a fresh proof object appended only when its discriminating field is present", ok && n == 2, strings.Join(notes, "; ")+fmt.Sprintf(" (%d appends)", n), P.Pos(fn.Pos()))
-				mp(P, R, "C08.e", FuncKey(fn)+":unknown-rejected", "a nil error is returned only after every element was classified (unknown => error)", fn, AcceptNilErr(0), &MustPass{NoInterproc: true,
-					Instr: func(f *ssa.Function, i ssa.Instruction) bool {
+				mp(P, R, "C08.e", FuncKey(fn)+":unknown-rejected", "a nil error is returned only after every element was classified (unknown => error)", fn, AcceptNilErr(0), &MustPass{Instr: func(f *ssa.Function, i ssa.Instruction) bool {
 						st, isSt := i.(*ssa.Store)
 						return isSt && desc(st.Addr) == "arg#0"
 					}})
@@ -173,7 +172,7 @@ func lookupNamesRule(P *Program, R *Report) {
 		fmt.Sprintf("structure uses %v, checked names %v, missing %v", sortedKeys(secrets), sortedKeys(names), missing), P.Pos(ini.Pos()))
 	if vs := mustFunc(P, R, rule, "revocation.(*proofStructure).verifyProofStructure"); vs != nil {
 		fa := &ForAll{P: P, Spec: ForAllSpec{Coll: is("global:revocation.secretNames"), Body: func(f *ssa.Function, l *Loop) *MustPass {
-			return &MustPass{NoInterproc: true, Match: func(a Atom) bool {
+			return &MustPass{Match: func(a Atom) bool {
 				return desc(a.V) == "<revocation.Proof>.Responses[global:revocation.secretNames[#i]]" && a.Want == NonNil
 			}}
 		}}}
@@ -181,14 +180,14 @@ func lookupNamesRule(P *Program, R *Report) {
 		R.decide(rule, FuncKey(vs)+":all-names", "the structure check accepts only if the response of every name in secretNames is non-nil", m.holds, m.detail, P.Pos(vs.Pos()))
 		for _, f := range []string{"Cr", "Cu", "Nu", "Challenge"} {
 			f := f
-			mp(P, R, rule, FuncKey(vs)+":"+f, "the structure check accepts only if "+f+" is non-nil", vs, AcceptTrue(0), &MustPass{NoInterproc: true, Match: func(a Atom) bool {
+			mp(P, R, rule, FuncKey(vs)+":"+f, "the structure check accepts only if "+f+" is non-nil", vs, AcceptTrue(0), &MustPass{Match: func(a Atom) bool {
 				return desc(a.V) == "<revocation.Proof>."+f && a.Want == NonNil
 			}})
 		}
 	}
 	// the revocation verifier runs the structure check before the contributions are computed from the proof
 	if vwc := mustFunc(P, R, rule, "revocation.(*Proof).VerifyWithChallenge"); vwc != nil {
-		mp(P, R, rule, FuncKey(vwc)+":structure-first", "accept => the structure check passed", vwc, AcceptTrue(0), &MustPass{NoInterproc: true, Match: func(a Atom) bool {
+		mp(P, R, rule, FuncKey(vwc)+":structure-first", "accept => the structure check passed", vwc, AcceptTrue(0), &MustPass{Match: func(a Atom) bool {
 			_, ok := callAtom(a, True, "revocation.(*proofStructure).verifyProofStructure")
 			return ok
 		}})
@@ -197,7 +196,7 @@ func lookupNamesRule(P *Program, R *Report) {
 	if vs := mustFunc(P, R, rule, "rangeproof.(*ProofStructure).VerifyProofStructure"); vs != nil {
 		for _, f := range []string{"Cs", "DResponses", "VResponses"} {
 			f := f
-			mp(P, R, rule, FuncKey(vs)+":len("+f+")", "accept => len("+f+") equals the number of squares of the structure", vs, AcceptTrue(0), &MustPass{NoInterproc: true, Match: func(a Atom) bool {
+			mp(P, R, rule, FuncKey(vs)+":len("+f+")", "accept => len("+f+") equals the number of squares of the structure", vs, AcceptTrue(0), &MustPass{Match: func(a Atom) bool {
 				g, ok := parseGuard(a, nil)
 				if !ok || g.Kind != "int" || g.Rel != "==" {
 					return false
@@ -206,14 +205,14 @@ func lookupNamesRule(P *Program, R *Report) {
 				return (g.Subject == x && g.BoundA.String() == y) || (g.Subject == y && g.BoundA.String() == x)
 			}})
 			fa := &ForAll{P: P, Spec: ForAllSpec{Coll: is("<rangeproof.ProofStructure>.cRep"), Body: func(fn *ssa.Function, l *Loop) *MustPass {
-				return &MustPass{NoInterproc: true, Match: func(a Atom) bool { return desc(a.V) == "<rangeproof.Proof>."+f+"[#i]" && a.Want == NonNil }}
+				return &MustPass{Match: func(a Atom) bool { return desc(a.V) == "<rangeproof.Proof>."+f+"[#i]" && a.Want == NonNil }}
 			}}}
 			m := fa.inFn(vs, AcceptTrue(0))
 			R.decide(rule, FuncKey(vs)+":"+f+"[i]!=nil", "accept => every entry of "+f+" is non-nil", m.holds, m.detail, P.Pos(vs.Pos()))
 		}
 		for _, f := range []string{"V5Response", "MResponse"} {
 			f := f
-			mp(P, R, rule, FuncKey(vs)+":"+f, "accept => "+f+" is non-nil", vs, AcceptTrue(0), &MustPass{NoInterproc: true, Match: func(a Atom) bool {
+			mp(P, R, rule, FuncKey(vs)+":"+f, "accept => "+f+" is non-nil", vs, AcceptTrue(0), &MustPass{Match: func(a Atom) bool {
 				return desc(a.V) == "<rangeproof.Proof>."+f && a.Want == NonNil
 			}})
 		}
